@@ -637,6 +637,11 @@ func checkMain(args []string) int {
 				d := replayDoc{Property: prop, Harness: hr.Spec.Fn, Pkg: hr.Spec.Pkg, Kind: v.Kind, Msg: v.Msg, Values: v.Values, Params: hr.Params, Known: confirmed, Model: strings.Join(strings.Fields(v.Model), " ")}
 				if v.Par {
 					d.Stress = 4000
+					if v.Kind == "crash" && strings.Contains(v.Msg, "deadlock") {
+						// a deadlock needs one particular interleaving of two short calls: many cheap rounds; the
+						// first round that blocks ends the replay after the hang limit
+						d.Stress = 300000
+					}
 				}
 				b, _ := json.MarshalIndent(d, "", " ")
 				h := sha256.Sum256(b)
